@@ -109,8 +109,8 @@ func H_C17_diff() {
 		return s
 	}
 	a, b := mk(vEngLeveldbMem), mk(vEngBtree)
-	keys := c01Keys("key", 2, 1)
-	vals := [][]byte{vNondetBytes("val", 1), vNondetBytes("val", 1)}
+	keys := c01Keys("key", 3, 1)
+	vals := [][]byte{vNondetBytes("val", 1), vNondetBytes("val", 1), vNondetBytes("val", 1)}
 	for _, s := range []*server{a, b} {
 		for i := range keys {
 			_, err := s.MutateRow(vCtx(), &btpb.MutateRowRequest{TableName: vTable, RowKey: keys[i], Mutations: []*btpb.Mutation{
@@ -148,6 +148,18 @@ func H_C17_diff() {
 		vReach("c17-diff-ok")
 	} else {
 		vReach("c17-diff-err")
+	}
+	// drop the only family and create it again in one request: every row loses all its cells
+	if vChoice("recreate-family", 0, 1) == 1 {
+		for _, s := range []*server{a, b} {
+			_, err := s.ModifyColumnFamilies(vCtx(), &btapb.ModifyColumnFamiliesRequest{Name: vTable, Modifications: []*btapb.ModifyColumnFamiliesRequest_Modification{
+				{Id: "f", Mod: &btapb.ModifyColumnFamiliesRequest_Modification_Drop{Drop: true}},
+				{Id: "f", Mod: &btapb.ModifyColumnFamiliesRequest_Modification_Create{Create: &btapb.ColumnFamily{}}}}})
+			vAssert(err == nil, "modify-ok")
+		}
+		ra, rb := vReadAll(a), vReadAll(b)
+		vAssert(len(ra) == 0 && len(rb) == 0, "dropped-family-data-gone-on-both-engines")
+		vReach("c17-recreate")
 	}
 	// then a DropRowRange by prefix and a final read
 	pfx := vNondetBytes("prefix", 1)
